@@ -319,6 +319,13 @@ def check_maxabs(case, ctx):
     finite_vals = [abs(v) for v in flat if not math.isnan(v)]
     all_nan_array = any(all(math.isnan(v) for v in a) for a in case["arrays"])
     args = [a.tolist() for a in arrs] if case["as_list"] else arrs
+    # the containers that verde itself hands on: a column of grid_to_table (pandas Series), a variable of grid() / load_surfer (xarray DataArray)
+    form = ["given", "given", "series", "dataarray"][build.small_hash(case, 17) % 4]
+    if form != "given" and not case["as_list"]:
+        import pandas as pd
+        import xarray as xr
+
+        args = [(pd.Series(a.ravel(), index=np.arange(a.size) + 3) if form == "series" else xr.DataArray(a, dims=["d%d_%d" % (k, j) for j in range(a.ndim)])) for k, a in enumerate(arrs)]
     import warnings
 
     with warnings.catch_warnings():
@@ -335,7 +342,7 @@ def check_maxabs(case, ctx):
             ctx.check(math.isnan(got), "maxabs(..., nan=False) with NaNs present should be NaN, got %r", got)
         else:
             ctx.check(got == max(finite_vals), "maxabs(%r) = %r, expected %r", case["arrays"], got, max(finite_vals))
-    ctx.label("nan_aware" if case["nan"] else "plain", "has_nan" if has_nan else "no_nan", "arrays%d" % len(arrs))
+    ctx.label("nan_aware" if case["nan"] else "plain", "has_nan" if has_nan else "no_nan", "arrays%d" % len(arrs), "as_" + (form if not case["as_list"] else "list"))
     if all_nan_array:
         ctx.label("all_nan_array")
     ctx.nt(len(arrs) >= 2 or has_nan)
